@@ -4,6 +4,7 @@ mod exec;
 mod explore;
 mod world;
 mod fw;
+mod interp;
 mod props;
 
 use fw::*;
@@ -30,7 +31,9 @@ fn main() {
         .and_then(|s| s.parse().ok())
         .unwrap_or(tier.pick(45.0, 840.0));
     let ctx = Ctx { prop: prop.clone(), tier, seed, start: Instant::now(), budget_s };
-    silence_panics();
+    if std::env::var("VERIF_PANIC").is_err() {
+        silence_panics();
+    }
     let replay_path = args.iter().position(|a| a == "--replay").map(|i| args[i + 1].clone());
     let code = props::dispatch(&ctx, replay_path.as_deref());
     std::process::exit(code);
